@@ -514,7 +514,7 @@ def c17_special(pid, prop, tier, seed, b):
             if v == 0 and subs and mode == 'plain':
                 # run from a sub-directory with the root spelled ".." (the hidden-directory test must not take it for hidden)
                 cwd_rel = rng.choice(subs)
-                args = ['..'] if rng.random() < 0.7 else ['..', '.']
+                args = ['..']      # one root only: '..' and '.' spell the same link targets differently for the cycle cache ('../v0/a0' vs 'a0')
             gmp = rng.choice(['1', '2', '16']) if mode != 'narrow' else rng.choice(['1', '1', '2', '4'])
             workers = rng.choice(['1', '2', '50'])
             runs.append(dict(reps=12 if mode == 'narrow' else 2, t=t, troot=troot, dirs=dirs, files=files, links=links, flags=flags, args=args, gmp=gmp,
